@@ -237,19 +237,19 @@ Print Assumptions C13g_general_partial.
 
 (* ---------- non-vacuity ---------- *)
 
-(* start state p1 -> 7; store_object(p3, content 7) with a one-off failure of the 8th fault site
-   (the read of the cid list): the call raises, p3 is rolled back, p1 is served the same bytes; the
-   general theorems apply to this run (their hypotheses hold) *)
+(* start state p1 -> 7; store_object(p3, content 7) with a one-off failure of fault site 9 (the
+   read of the cid list; site 2 is the chunk write into the temp file): the call raises, p3 is rolled
+   back, p1 is served the same bytes; the general theorems apply to this run (their hypotheses hold) *)
 Definition f_w0 : world :=
   mkWorld [(AObj 7, CData 7 1 1); (APidRef 1, CCid 7); (ACidRef 7, CLines [1])] [].
 Definition f_call : call := CStore (Some 3) SrcPath 7 1 VSzNone VCkNone.
 
 Example C13g_nonvacuous :
   Inv f_w0 /\ call_pid f_call = Some 3 /\
-  fault_target 8 f_w0 (api f_call) = Some (Read (ACidRef 7)) /\
-  run_fault (FWait 8 false) f_w0 (api f_call) = Some (f_w0, Exn EOSError) /\
+  fault_target 9 f_w0 (api f_call) = Some (Read (ACidRef 7)) /\
+  run_fault (FWait 9 false) f_w0 (api f_call) = Some (f_w0, Exn EOSError) /\
   (exists r, retr f_w0 1 = Some r /\ r = Val (CData 7 1 1)) /\
-  (exists w r, run_fault (FWait 8 false) f_w0 (api f_call) = Some (w, r) /\ locks w = []).
+  (exists w r, run_fault (FWait 9 false) f_w0 (api f_call) = Some (w, r) /\ locks w = []).
 Proof.
   assert (HI : Inv f_w0).
   { assert (H : run_seq empty_world (api (CStore (Some 1) SrcPath 7 1 VSzNone VCkNone)) =
@@ -261,11 +261,15 @@ Proof.
 Qed.
 Print Assumptions C13g_nonvacuous.
 
-(* a store_metadata that fails persistently at its temp file: the old version stays *)
+(* a store_metadata whose second chunk write fails (full disk), persistently for its temp file: the
+   old version stays; the temp file, holding the first chunk, is left behind (the code has no handler
+   around the writes of _put_metadata).  Fault site 2 is the first chunk write, 3 the second. *)
 Example C13g_nonvacuous_meta :
-  run_fault (FWait 2 true) (mkWorld [(AMeta 1 0, CData 5 1 1)] []) (api (CStoreMeta 1 0 SrcPath 9 2)) =
-    Some (mkWorld [(AMeta 1 0, CData 5 1 1)] [], Exn EOSError).
-Proof. vm_compute. reflexivity. Qed.
+  site_op 3 (mkWorld [(AMeta 1 0, CData 5 1 1)] []) (api (CStoreMeta 1 0 SrcPath 9 2)) =
+    Some (WriteChunk (ATmp ArMeta 0 0)) /\
+  run_fault (FWait 3 true) (mkWorld [(AMeta 1 0, CData 5 1 1)] []) (api (CStoreMeta 1 0 SrcPath 9 2)) =
+    Some (mkWorld [(AMeta 1 0, CData 5 1 1); (ATmp ArMeta 0 0, CData 9 2 1)] [], Exn EOSError).
+Proof. vm_compute. split; reflexivity. Qed.
 Print Assumptions C13g_nonvacuous_meta.
 
 (* =================================================================================== *)
@@ -314,8 +318,8 @@ Example C13g_duplicate_store_fault_untags :
   let c := CStore (Some 1) SrcPath 7 1 VSzNone VCkNone in
   run_seq empty_world (api c) = Some (w1, Val (VMeta 7 1)) /\
   run_seq w1 (api c) = Some (w1, Exn EHashStoreRefsAlreadyExists) /\
-  site_op 3 w1 (api c) = Some (MkDirs (APidRef 1)) /\
-  run_fault (FWait 3 false) w1 (api c) = Some (mkWorld [(AObj 7, CData 7 1 1)] [], Exn EOSError) /\
+  site_op 4 w1 (api c) = Some (MkDirs (APidRef 1)) /\
+  run_fault (FWait 4 false) w1 (api c) = Some (mkWorld [(AObj 7, CData 7 1 1)] [], Exn EOSError) /\
   run_fault (FWait 0 false) w1 (api (CTag 1 7)) = Some (mkWorld [(AObj 7, CData 7 1 1)] [], Exn EOSError).
 Proof. exact duplicate_store_fault_untags. Qed.
 Print Assumptions C13g_duplicate_store_fault_untags.
